@@ -42,18 +42,30 @@ def utf16Length (bs : List Nat) : Nat := (Str.unitsOfBytes bs).length
 /-- the JS string value of a Go string, as the code units a script sees -/
 def jsStr (bs : List Nat) : List Nat := Str.unitsOfBytes bs
 
-/-- type_regexp.go:92-122: the body of execRegExp once `lastIndex` has been read as an int64 -/
+/-- type_regexp.go utf16ByteOffset, the loop `for offset, chr := range s` -/
+def byteOffLoop : Nat → List Nat → Nat → Nat → Nat → Nat × Bool
+  | 0, _, off, count, units => (off, decide (count ≥ units))
+  | f + 1, bs, off, count, units =>
+    match Str.decodeRune bs with
+    | none => (off, decide (count ≥ units))                     -- return len(s), count >= units
+    | some (r, w) =>
+      if count ≥ units then (off, true)
+      else byteOffLoop f (bs.drop w) (off + w) (count + (if r > 0xFFFF then 2 else 1)) units
+
+/-- type_regexp.go utf16ByteOffset: byte offset of a UTF-16 offset, false if it is not within s -/
+def utf16ByteOffset (s : List Nat) (units : Int) : Nat × Bool :=
+  if units < 0 then (0, false) else byteOffLoop (s.length + 1) s 0 0 units.toNat
+
+/-- type_regexp.go:92-120: the body of execRegExp once `lastIndex` has been read as an int64 -/
 def execAt (E : Eng) (rx : RX) (target : List Nat) (lastIndex : Int) : RX × Option Caps :=
   let index := if rx.global then lastIndex else 0
-  let result : Option Caps :=
-    if 0 > index ∨ index > (target.length : Int) then none
-    else E.findAt (target.drop index.toNat) 0
+  let so := utf16ByteOffset target index
+  let result : Option Caps := if so.2 then E.findAt (target.drop so.1) 0 else none
   match result with
   | none => ({ rx with lastIndex := .int 0 }, none)
   | some r =>
-    let endIndex := lastIndex + (capEnd r : Int)
-    let r' := shiftCaps index.toNat r
-    (if rx.global then { rx with lastIndex := .int endIndex } else rx, some r')
+    let r' := shiftCaps so.1 r
+    (if rx.global then { rx with lastIndex := .int (utf16Length (target.take (capEnd r'))) } else rx, some r')
 
 /-- type_regexp.go:86 execRegExp: new object state and the (absolute, byte) offsets -/
 def execRegExp (E : Eng) (rx : RX) (target : List Nat) : RX × Option Caps :=
@@ -108,10 +120,10 @@ def builtinStringMatch (E : Eng) (rx : RX) (target : List Nat) : RX × Res :=
   else
     let result := findAll E target none
     match result.getLast? with
-    | none => ({ rx with lastIndex := .int 0 }, .undef)
+    | none => ({ rx with lastIndex := .int 0 }, .null)
     | some last =>
       let items := result.map fun mt => some (jsStr (slice target (capStart mt) (capEnd mt)))
-      ({ rx with lastIndex := .int (capEnd last) }, .arr none items)
+      ({ rx with lastIndex := .int (utf16Length (target.take (capEnd last))) }, .arr none items)
 
 /-- decimal digits of a natural number (strconv / ToString of a small integer) -/
 def decDigitsAux : Nat → Nat → List Nat → List Nat
@@ -119,16 +131,18 @@ def decDigitsAux : Nat → Nat → List Nat → List Nat
   | f + 1, v, acc => if v < 10 then (48 + v) :: acc else decDigitsAux f (v / 10) ((48 + v % 10) :: acc)
 def decDigits (v : Nat) : List Nat := decDigitsAux 32 v []
 
-/-- builtin_string.go:185-210: expansion of one replacement string.  builtinStringReplaceRegexp is
-    `\$(?:[\$\&\'\`1-9]|0[1-9]|[1-9][0-9])`; leftmost-first makes `$1`…`$9` win over `$10`…`$99`. -/
+/-- builtin_string.go:185-216: expansion of one replacement string.  builtinStringReplaceRegexp is
+    `\$(?:[\$\&\'\`]|0[1-9]|[1-9][0-9]|[1-9])` (leftmost-first: the two-digit forms are tried before
+    `$1`…`$9`); a two-digit form that names no capture is `$n` followed by a digit. -/
 def expandF (target : List Nat) (mt : Caps) : Nat → List Nat → List Nat
   | 0, _ => []
   | _ + 1, [] => []
   | _ + 1, [c] => [c]
   | f + 1, c0 :: c :: rest =>
     if c0 ≠ 36 then c0 :: expandF target mt f (c :: rest) else
+    let matchCount := mt.length
     let grp (k : Nat) : List Nat :=
-      if k ≥ mt.length then [] else
+      if k ≥ matchCount then [] else
       match mt[k]? with
       | some (some (a, b)) => slice target a b
       | _ => []
@@ -136,11 +150,19 @@ def expandF (target : List Nat) (mt : Caps) : Nat → List Nat → List Nat
     else if c = 38 then slice target (capStart mt) (capEnd mt) ++ expandF target mt f rest
     else if c = 96 then target.take (capStart mt) ++ expandF target mt f rest
     else if c = 39 then target.drop (capEnd mt) ++ expandF target mt f rest
-    else if 49 ≤ c ∧ c ≤ 57 then grp (c - 48) ++ expandF target mt f rest
     else if c = 48 then
       match rest with
       | d :: rest' => if 49 ≤ d ∧ d ≤ 57 then grp (d - 48) ++ expandF target mt f rest' else 36 :: expandF target mt f (c :: rest)
       | [] => [36, 48]
+    else if 49 ≤ c ∧ c ≤ 57 then
+      match rest with
+      | d :: rest' =>
+        if 48 ≤ d ∧ d ≤ 57 then
+          let nn := (c - 48) * 10 + (d - 48)
+          if nn ≥ matchCount then grp (c - 48) ++ d :: expandF target mt f rest'     -- tail = the digit
+          else grp nn ++ expandF target mt f rest'
+        else grp (c - 48) ++ expandF target mt f rest
+      | [] => grp (c - 48)
     else 36 :: expandF target mt f (c :: rest)
 
 def expand (target : List Nat) (mt : Caps) (rv : List Nat) : List Nat := expandF target mt (rv.length + 1) rv
@@ -166,19 +188,20 @@ def replaceLoop (target : List Nat) (f : Caps → List Nat) : List Caps → Nat 
     `repl = none` is the reporting function replacer -/
 def builtinStringReplace (E : Eng) (rx : RX) (target : List Nat) (repl : Option (List Nat)) : RX × Res :=
   let found := findAll E target (if rx.global then none else some 1)
+  let rx := if rx.global then { rx with lastIndex := .int 0 } else rx
   if found.isEmpty then (rx, .str (jsStr target)) else
   let f : Caps → List Nat := match repl with
     | some rv => fun mt => expand target mt rv
     | none => fun mt => reportArgs (replacerArgs target mt)
   let (result, lastIndex) := replaceLoop target f found 0 []
   let result := if lastIndex ≠ target.length then result ++ target.drop lastIndex else result
-  (if rx.global then { rx with lastIndex := .int lastIndex } else rx, .str (jsStr result))
+  (rx, .str (jsStr result))
 
 /-- builtin_string.go:288 builtinStringSearch -/
 def builtinStringSearch (E : Eng) (rx : RX) (target : List Nat) : RX × Res :=
   match E.findAt target 0 with
   | none => (rx, .num (-1))
-  | some r => (rx, .num (capStart r))
+  | some r => (rx, .num (utf16Length (target.take (capStart r))))
 
 /-- builtin_string.go:330-366: the loop over matches.  Returns (values, lastIndex, found, hitLimit) -/
 def splitCaps (target : List Nat) (limit : Option Nat) : List (Option (Nat × Nat)) → Nat → List (Option (List Nat)) →
@@ -235,14 +258,14 @@ def run (E : Eng) (target : List Nat) : RX → List Step → List (Res × LI)
     let (rx', r) := step E target rx s
     (r, rx'.lastIndex) :: run E target rx' ss
 
-/-- type_regexp.go:30-50 flag scanning: none = SyntaxError (a repeated g, i or m);
-    any other character is silently ignored.  Result (global, ignoreCase, multiline). -/
+/-- type_regexp.go:30-52 flag scanning: none = SyntaxError (a repeated g, i or m, or any other
+    character).  Result (global, ignoreCase, multiline). -/
 def parseFlags : List Nat → Bool → Bool → Bool → Option (Bool × Bool × Bool)
   | [], g, i, mm => some (g, i, mm)
   | c :: cs, g, i, mm =>
     if c = 103 then (if g then none else parseFlags cs true i mm)
     else if c = 109 then (if mm then none else parseFlags cs g i true)
     else if c = 105 then (if i then none else parseFlags cs g true mm)
-    else parseFlags cs g i mm
+    else none
 
 end OttoVerif.C10.Model
